@@ -146,18 +146,58 @@ def make_potable_variants(rng, m):
 
 
 # ---------------------------------------------------------------------------------------------------------------
-def build_objects(m, tracer=Tr):
+class EnergyPotential(Potential):
+    """a pair potential whose energy() is not its potentialFunction (a truncated / shifted subclass): writers tabulate energy()"""
+
+    def __init__(self, a, b, f, decoy):
+        Potential.__init__(self, a, b, decoy)
+        self._f = f
+
+    def energy(self, r):
+        return self._f(r)
+
+
+class MissingDict(dict):
+    """a density dictionary that supplies some of its entries through __missing__ (like collections.defaultdict): `d[key]` finds them, `.get` / iteration do not"""
+
+    def __init__(self, explicit, hidden):
+        dict.__init__(self, explicit)
+        self._hidden = hidden
+
+    def __missing__(self, key):
+        return self._hidden[key]
+
+
+def build_objects(m, tracer=Tr, variant=None):
+    """variant (Python-API routes only): 'energy-subclass' - pair potentials are Potential subclasses overriding energy(); 'missing-dict' - Finnis-Sinclair density
+    dictionaries hand out every second entry through __missing__"""
     eams = []
     for e in m["els"]:
         md = m["meta"][e]
         emb = tracer(m["embed"][e]) if m["embed"][e] else zero_fn
         if m["fs"]:
             d = {b: (tracer(f) if f else zero_fn) for b, f in m["dens"][e].items()}
+            if variant == "missing-dict":
+                keys = sorted(d)
+                d = MissingDict({k: d[k] for k in keys[::2]}, {k: d[k] for k in keys[1::2]})
         else:
             d = tracer(m["dens"][e]) if m["dens"][e] else zero_fn
         eams.append(EAMPotential(e, md["z"], float(md["mass"]), emb, d, float(md["a0"]), md["lat"]))
-    pots = [Potential(a, b, tracer(f)) for (a, b, f) in m["pairs"]]
+    if variant == "energy-subclass":
+        pots = [EnergyPotential(a, b, tracer(f), tracer(f + 40)) for (a, b, f) in m["pairs"]]
+    else:
+        pots = [Potential(a, b, tracer(f)) for (a, b, f) in m["pairs"]]
     return pots, eams
+
+
+def api_variant(rng, m, allow_missing_dict=True):
+    """which shape of API objects a case uses (see build_objects)"""
+    r = rng.random()
+    if r < 0.2:
+        return "energy-subclass"
+    if r < 0.4 and m["fs"] and allow_missing_dict:
+        return "missing-dict"
+    return None
 
 
 def poly(fid):
